@@ -5,6 +5,10 @@ bracket and quote imbalance, NUL / BOM / CR / CRLF / mixed endings / form feed, 
 lines), structural blow-ups (nested parentheses / blocks, operator and method chains, elif chains, long
 literals) in every language, raw bytes, empty / whitespace files, and the same content under every known,
 upper-case, unknown and missing extension (+- shebang). The offending file sits between healthy siblings.
+Line-cut matrix: a "commented zoo" per language (every comment form - line, doc, inner doc, block, block doc, nested,
+docstring, trailing - in every member position of struct / enum / impl / trait / class / interface / body) and a file with
+every seed family are cut at EVERY line boundary, with the final newline kept, cut off, or CRLF endings; the random stage
+has the matching mutators (truncate-line, comment-line) and the commented zoo in part of its base files.
 
 Oracle per case:
   * one library run of ALL rules over the directory (Orchestrator.lint_directory): no exception escapes,
@@ -38,13 +42,15 @@ CASE_LIMIT_S = 900  # backstop for a case stuck in C code; a command is judged b
 HANG_IS_VIOLATION = True  # termination is part of this property: a case over the limit twice (in its shard, then alone) is a violation
 RULE = (
     "case = (valid seed file of py/ts/js/rs, sequence of 1-4 byte/token-level mutations) | (structural blow-up kind, size n, language) | "
-    "raw bytes | empty/whitespace | (syntax zoo of the language with ONE literal re-typed: enumerated literal x value matrix),  under a drawn extension (known, upper-case, unknown, none +- shebang), between two healthy siblings. "
+    "raw bytes | empty/whitespace | (syntax zoo of the language with ONE literal re-typed: enumerated literal x value matrix) | "
+    "(commented zoo / all-seed-families file of the language cut at a line boundary: enumerated document x line x tail {newline kept, cut off, CRLF} matrix),  under a drawn extension (known, upper-case, unknown, none +- shebang), between two healthy siblings. "
     "Non-trivial: the offending file differs from every valid seed and its language is recognised or the decode path is hit. Distinct = "
     "(mutator kinds, language, extension class, size bucket) + content hash."
 )
 ASSUMPTIONS = [
     "a syntax-error VIOLATION for an unparsable file is accepted behaviour (exit 1); only abandonment through an exception, a changed sibling result, exit 2 or a hang is a failure",
     "configuration is fixed and valid, so no ValueError can be a legitimate configuration error",
+    "a file cut at a line boundary (whole lines, final newline present or not) is ordinary 'truncated source' of the statement; its comment lines may be of any form the language documents",
     "hang = a call exceeding 60 s on an input <= 2 MB, confirmed in a fresh subprocess with a 120 s limit; otherwise counted as inconclusive",
 ]
 BUDGET_S = {"quick": 220, "thorough": 1200}
@@ -114,7 +120,39 @@ def base_text(lang, fams, u):
         text = "\n".join(MULTILINE_OPENERS[lang]) + "\n" + text
     if u % 4 != 3:
         text = text + zoo.ZOO[lang]
+    if u % 5 in (1, 3):
+        text = text + "\n" + zoo.COMMENTED[lang]
     return text
+
+
+def linecut_doc(lang, doc):
+    """The documents of the line-cut matrix: the commented zoo (every comment form in every member position) and one
+    file with every seed family of the language (+ multi-line openers + syntax zoo)."""
+    if doc == "commented":
+        return zoo.COMMENTED[lang]
+    if doc == "seeds":
+        return base_text(lang, list(range(len(seeds.families(lang)))), 0)
+    raise ValueError(doc)
+
+
+TAILS = ["lf", "none", "crlf"]
+
+
+def linecut(text, cut, tail):
+    """The first `cut` lines of the text: a truncation at a line boundary (an interrupted write, a half-typed file in an
+    editor, a merge cut). tail: the file still ends with its newline (lf), the newline is cut off too (none), or the
+    whole prefix has CRLF endings (crlf)."""
+    lines = text.split("\n")
+    if lines and lines[-1] == "":
+        lines.pop()
+    head = lines[:cut]
+    if tail == "lf":
+        return "\n".join(head) + "\n"
+    if tail == "none":
+        return "\n".join(head)
+    if tail == "crlf":
+        return "\r\n".join(head) + "\r\n"
+    raise ValueError(tail)
 
 
 def _top_block(lang):
@@ -223,6 +261,10 @@ BAD_UTF8 = [b"\xff\xfe", b"\xc3\x28", b"\xe2\x82", b"\xf0\x28\x8c\x28", b"\x80",
 INSERTS = [b"(", b")", b"[", b"]", b"{", b"}", b'"', b"'", b"`", b'"""', b"\\", b"\x00", b"\x0c", b"\r", b"\t", b"\xef\xbb\xbf", b"/*", b"*/", b"#", b"//", b"${", b"<", b">", b"=>", b"|", b"\\u", b"\xe2\x80\xa8"]
 
 
+COMMENT_LINES = [b"/// doc comment", b"//! inner doc comment", b"// comment", b"/* block comment */", b"/** block doc comment */", b"/*! inner block doc */",
+                 b"# comment", b'"""docstring"""', b"/* open block comment", b"///", b"//", b"#", b"<!-- comment -->", b"-- comment", b"#![allow(dead_code)]", b"// thailint: ignore", b"# noqa"]
+
+
 def mutate(data: bytes, muts) -> bytes:
     for m in muts:
         kind, a, b = m
@@ -238,6 +280,15 @@ def mutate(data: bytes, muts) -> bytes:
                 data = data[: opens[int(a * (len(opens) - 1))] + 1 + int(b * 12)]
         elif kind == "ctrl":  # one control byte that is valid UTF-8 but no source character (NUL, FF, SUB, ESC, DEL, VT)
             data = data[:pos] + [b"\x00", b"\x0c", b"\x1a", b"\x1b", b"\x7f", b"\x0b", b"\x00\x00"][int(b * 7) % 7] + data[pos:]
+        elif kind == "truncate-line":  # cut at a line boundary: the file ends with a whole line and its newline
+            ends = [i + 1 for i, ch in enumerate(data) if ch == 0x0A]
+            if ends:
+                data = data[: ends[int(a * (len(ends) - 1))]]
+        elif kind == "comment-line":  # a comment line of some language (not necessarily this one) at a line boundary
+            starts = [0] + [i + 1 for i, ch in enumerate(data) if ch == 0x0A]
+            at = starts[int(a * (len(starts) - 1))]
+            indent = data[at: at + len(data[at:]) - len(data[at:].lstrip(b" "))]
+            data = data[:at] + indent + COMMENT_LINES[int(b * len(COMMENT_LINES)) % len(COMMENT_LINES)] + b"\n" + data[at:]
         elif kind == "unclose":  # drop the first line that only closes a bracket
             lines = data.split(b"\n")
             for i, l in enumerate(lines):
@@ -292,7 +343,7 @@ def mutate(data: bytes, muts) -> bytes:
     return data
 
 
-MUT_KINDS = ["retype", "retype", "retype", "truncate", "truncate-early", "truncate-at-open", "unclose", "ctrl", "ctrl", "delete", "dup", "swap", "insert", "insert", "badutf8", "overwrite", "crlf", "mixed", "bom", "utf16", "delline", "dedent", "nonl"]
+MUT_KINDS = ["retype", "retype", "retype", "truncate", "truncate-line", "truncate-line", "comment-line", "comment-line", "truncate-early", "truncate-at-open", "unclose", "ctrl", "ctrl", "delete", "dup", "swap", "insert", "insert", "badutf8", "overwrite", "crlf", "mixed", "bom", "utf16", "delline", "dedent", "nonl"]
 
 
 def offender_bytes(case) -> bytes:
@@ -307,6 +358,8 @@ def offender_bytes(case) -> bytes:
         return case["text"].encode()
     if k == "zoo":  # the syntax zoo with ONE literal re-typed: (literal index, value index) is an enumerated matrix
         return zoo.retype_at(zoo.ZOO[case["lang"]].encode(), case["lit"], case["val"])
+    if k == "linecut":  # (document, line boundary, tail form) is an enumerated matrix
+        return linecut(linecut_doc(case["lang"], case["doc"]), case["cut"], case["tail"]).encode()
     if k == "ext":
         return ((case["shebang"] + "\n") if case["shebang"] else "").encode() + base_text(case["lang"], case["fams"], case["u"]).encode()
     raise ValueError(k)
@@ -381,6 +434,8 @@ def check(case) -> Case:
         labels += [f"mut={m[0]}" for m in case["muts"]]
     if case["kind"] == "blowup":
         labels.append(f"blow={case['blow']}")
+    if case["kind"] == "linecut":
+        labels += [f"linecut-doc={case['doc']}/{case['lang']}", f"linecut-tail={case['tail']}"]
     failures = []
     files = dict(sibling_files())
     where = ["", "zz/", "pkg/"][case.get("rot", 0) % 3]  # analysed before the siblings, after them, or among them
@@ -533,6 +588,18 @@ def run(ctx):
     mine = ctx.my_cells(cells)
     done = ctx.each(mine, check)
     ctx.stats.extra.setdefault("matrix", {})["syntax zoo: literal x replacement value"] = {"cells": len(mine), "done": done}
+    # line-cut matrix: every document x every line boundary x tail form (the commented zoo under all three tails; the
+    # all-families seed file with its newline kept / cut off, quick: the half of its cells selected by the seed)
+    cuts = []
+    for lang in ("py", "ts", "js", "rs"):
+        for doc, tails in (("commented", TAILS), ("seeds", TAILS[:2])):
+            n = zoo.n_lines(linecut_doc(lang, doc))
+            cuts += [{"kind": "linecut", "lang": lang, "doc": doc, "cut": k, "tail": t, "rot": (k + j) % 3, "lib_only": True}
+                     for k in range(1, n + 1) for j, t in enumerate(tails)
+                     if not (ctx.quick and doc == "seeds" and (k + j + ctx.seed) % 2)]
+    mine = ctx.my_cells(cuts)
+    done = ctx.each(mine, check)
+    ctx.stats.extra["matrix"]["line cut: document x line boundary x tail"] = {"cells": len(mine), "done": done}
     ctx.explore(mutants(), check, max_examples=ctx.n(45, 700), salt=1)
     ctx.explore(blowups(1000 if ctx.quick else 1000000), check, max_examples=ctx.n(12, 150), salt=2)
     ctx.explore(raws(), check, max_examples=ctx.n(15, 300), salt=3)
